@@ -65,6 +65,7 @@ func c48OpenSSLDifferential(t *testing.T, c *ev.Collector, pool *ref.OCSPPool) {
 		base = os.TempDir()
 	}
 	k, _ := ev.Shard()
+	start := time.Now()
 	dir, err := os.MkdirTemp(base, fmt.Sprintf("c48-ossl-%d-", k))
 	if err != nil {
 		c.Assumption("no temp dir for the openssl differential: skipped")
@@ -95,10 +96,12 @@ func c48OpenSSLDifferential(t *testing.T, c *ev.Collector, pool *ref.OCSPPool) {
 		if !ev.Mine(i) {
 			continue
 		}
-		ca := pool.CAs[[]int{0, 1, 2, 4}[i%4]]
-		mode := modes[(i/4)%4]
-		right := (i/16)%3 != 0 || mode == "delegated-foreign" // foreign: only the right issuer (OpenSSL also matches CertID against the signer's CA)
-		kind := []string{"rsa2048", "p256", "p384"}[(i/48)%3]
+		_, nsh := ev.Shard()
+		j := i/nsh + 5*(i%nsh) // decorrelate the parameters from the shard number
+		ca := pool.CAs[[]int{0, 1, 2, 4}[j%4]]
+		mode := modes[(j+j/4)%4]
+		right := j%3 != 0 || mode == "delegated-foreign" // foreign: only the right issuer (OpenSSL also matches CertID against the signer's CA)
+		kind := []string{"rsa2048", "p256", "p384"}[(j/2)%3]
 		pick := func(of int) *ref.OCSPResponder {
 			for _, r := range pool.RespondersOf(of, true) {
 				if r.Key.Kind == kind {
@@ -167,4 +170,5 @@ func c48OpenSSLDifferential(t *testing.T, c *ev.Collector, pool *ref.OCSPPool) {
 		c.Case(mode != "direct" || !right, fmt.Sprintf("F|%s|%s|%s|%d|%s", mode, ca.Key.Kind, kind, tmpl.Status, got), "F:openssl="+got, "F:"+mode, "F:"+verCls)
 	}
 	c.ClassN("F:openssl-calls", n)
+	t.Logf("openssl differential: %d cases in %v", n, time.Since(start))
 }
